@@ -361,9 +361,13 @@ Definition chk_row_o4 (c : Z * Z * option symdur) : bool :=
   let '(d, div, obs) := c in negb (classify_row d div obs =? 4).
 
 
-(* compact rows of the T2 sweep: 0 = reports none, otherwise
-   1 + type_index + 16 * (dots + 4 * (actual + 2^26 * normal)), type_index into the keys of
-   LABEL_DURS (15 = not a key) *)
+(* compact rows of the T2 sweep (the literal size dominates coqc's time on the case files):
+     0 = skip marker (the row has the answer of its reduced fraction and is judged there),
+     1 = reports none,
+     c >= 2: c-2 = ti + 16*(dots + 4*(t + 4*n)), ti = index into the keys of LABEL_DURS;
+             t = 0: no tuplet; t = 1,2,3: normal_notes = n and actual_notes = a' + (t-2) with
+             a' = round_half_even (n * LABEL_DURS[type] / (d/div)),
+     c < 0 : escape, -c = 1 + ti + 16*(dots + 4*(actual + 2^26*normal)), ti = 15: not a key *)
 Definition decode_sd (c : Z) : option symdur :=
   if c =? 0 then None
   else
@@ -376,16 +380,42 @@ Definition decode_sd (c : Z) : option symdur :=
     let n := c3 / 67108864 in
     Some (ty, dots, if (a =? 0) && (n =? 0) then None else Some (a, n)).
 
+(* None = skip marker; Some obs = the observed answer *)
+Definition decode_row (d div c : Z) : option (option symdur) :=
+  if c =? 0 then None
+  else if c =? 1 then Some None
+  else if c <? 0 then Some (decode_sd (- c))
+  else
+    let c2 := c - 2 in
+    let ty := nth (Z.to_nat (c2 mod 16)) (map fst label_durs) ""%string in
+    let dots := (c2 / 16) mod 4 in
+    let t := (c2 / 64) mod 4 in
+    let n := c2 / 256 in
+    if t =? 0 then Some (Some (ty, dots, None))
+    else
+      match slookup ty label_durs with
+      | Some lab =>
+        let a' := round_half_even (inject_Z n * lab / (inject_Z d / inject_Z div))%Q in
+        Some (Some (ty, dots, Some (a' + t - 2, n)))
+      | None => Some (Some (ty, dots, Some (0, n)))
+      end.
+
 (* all durations d, d+1, ... of one divisions value *)
 Fixpoint sweep_o4_from (d div : Z) (codes : list Z) : bool :=
   match codes with
   | [] => true
-  | c :: r => negb (classify_row d div (decode_sd c) =? 4) && sweep_o4_from (d + 1) div r
+  | c :: r => match decode_row d div c with
+              | None => true
+              | Some obs => negb (classify_row d div obs =? 4)
+              end && sweep_o4_from (d + 1) div r
   end.
 Definition chk_sweep_o4 (c : Z * list Z) : bool := sweep_o4_from 1 (fst c) (snd c).
 
 Definition chk_sweep_model (c : Z * list (Z * Z)) : bool :=
-  forallb (fun row => est_matches (estimate (fst row) (fst c)) (decode_sd (snd row))) (snd c).
+  forallb (fun row => match decode_row (fst row) (fst c) (snd row) with
+                      | Some obs => est_matches (estimate (fst row) (fst c)) obs
+                      | None => false
+                      end) (snd c).
 
 (* order_splits / find_tie_split cases *)
 Definition chk_order_splits (c : Z * Z * Z * list Z) : bool :=
